@@ -393,6 +393,26 @@ def _():
         """                (ops in ({"!="}, {"not in"}))""",
         """                (ops == {"!="})""")
 
+@fix("D19", "fix: the .pth file of an editable wheel lists its paths in sorted order (was hash-seed dependent)")
+def _():
+    sub("masonry/builders/wheel.py",
+        """        for path in paths:
+            content += path + os.linesep""",
+        """        for path in sorted(paths):
+            content += path + os.linesep""")
+
+@fix("D36", "fix: ask git for ignored files with -z so that names git would quote (non-ASCII) are still recognised")
+def _():
+    sub("vcs/git.py",
+        """        args += ["ls-files", "--others", "-i", "--exclude-standard"]
+        output = self.run(*args)
+
+        return output.strip().split("\\n")""",
+        """        args += ["ls-files", "--others", "-i", "--exclude-standard", "-z"]
+        output = self.run(*args)
+
+        return output.strip("\\0").split("\\0")""")
+
 def main():
     id_ = sys.argv[1]
     msg, f = FIXES[id_]
